@@ -223,6 +223,32 @@ def run(eng, R):
     f, a = band_forms("plot_residual_error_band")
     R.ob("H-panel", "plot_residual_error_band", a == ["self.model_line_x", norm_spec("-self.y_error_band").canon(), "self.y_error_band"], (f.file, f.lineno), "the residual band must span -/+ band (found %s)" % a)
 
+    # histogram density curve: scaled by the number of *all* filled entries (the fit's model uses n_entries, under- and overflow included)
+    HA = p.find_class("HistPlotAdapter")
+    md = HA.find_prop("model_density_y").fget
+
+    def closure_reads(fn, seen):
+        out = []
+        for a in ast.walk(fn.node):
+            if isinstance(a, ast.Attribute):
+                out.append(" ".join(ast.unparse(a).split()))
+                if isinstance(a.value, ast.Name) and a.value.id == "self":
+                    pr = HA.find_prop(a.attr)
+                    if pr is not None and pr.fget is not None and pr.fget.node is not fn.node and a.attr not in seen:
+                        seen.add(a.attr)
+                        out.extend(closure_reads(pr.fget, seen))
+        return out
+
+    seen = set()
+    reads = closure_reads(md, seen)
+    has_total = any(r.endswith(".n_entries") for r in reads)
+    from_bins = sorted({r for r in reads if r in ("self.data_y", "self._fit.data", "self.model_y", "self._fit.model")})
+    R.ob("H-panel", "HistPlotAdapter.model_density_y:entries", has_total and not from_bins, (md.file, md.lineno),
+         "the density curve must be scaled with the container's n_entries (all filled entries; HistFit.model uses the same number); found %s - a count taken from the in-range bins "
+         "is too small whenever entries lie in the under- or overflow" % (("reads " + ", ".join(from_bins)) if from_bins else "no read of n_entries"))
+    R.ob("H-panel", "HistPlotAdapter.model_density_y:curve", any(r == "self._fit.eval_model_function_density" for r in reads) and any(r == "self.model_density_x" for r in reads)
+         and any(r == "self._fit.density" for r in reads), (md.file, md.lineno), "the curve must be the fit's model density over model_density_x, scaled by the entries only for a density model")
+
     # ------------------------------------------------------------------ F-info
     gi = get_func(p, "Plot", "_get_fit_info")
     sites = [s for s in fresh.print_sites(p) if s[0].qualname == "Plot._get_fit_info"]
